@@ -144,6 +144,46 @@ func ruleWalkStop(c *eng.Ctx) {
 		}
 		return true
 	})
+	// a changed frontier re-tests membership: every call inside the walk that passes a merge target
+	// other than the caller's own parameter must enter through the function that performs the
+	// merged-head test (a block that was "not merged" against the old frontier may be a head of the new one)
+	for _, g := range recursionGroup(c.P, fi) {
+		ginfo := g.Pkg.TypesInfo
+		var gmt types.Object
+		for _, p := range paramObjs(ginfo, g.Decl) {
+			if strings.HasSuffix(eng.TypeName(p.Type()), ".mergeTarget") {
+				gmt = p
+			}
+		}
+		k := 0
+		for _, cs := range eng.Calls(ginfo, g.Decl.Body) {
+			callee := c.P.FuncOfObj(cs.Callee)
+			if callee == nil {
+				continue
+			}
+			inGroup := false
+			for _, m := range recursionGroup(c.P, fi) {
+				if m == callee {
+					inGroup = true
+				}
+			}
+			if !inGroup {
+				continue
+			}
+			for _, a := range cs.Call.Args {
+				if !strings.HasSuffix(eng.TypeName(ginfo.TypeOf(a)), ".mergeTarget") {
+					continue
+				}
+				if eng.ObjOf(ginfo, a) == gmt {
+					continue // same frontier
+				}
+				k++
+				c.Check(callee == fi, rule, fmt.Sprintf("%s:new-frontier-call#%d", shortFn(g), k), cs.Call.Pos(),
+					"a walked-back frontier re-enters through the merged-head test",
+					"the walk continues with a new merge target through "+shortFn(callee)+", which does not test whether the block is a head of that target: an already merged ancestor is processed again and re-added as a head")
+			}
+		}
+	}
 	c.Check(!written.IsValid(), rule, "loadComposites:target-not-mutated", fi.Decl.Pos(), "the frontier the walk stops at is never modified during the walk",
 		"loadComposites writes through its merge-target parameter at "+c.P.Rel(written)+": sibling branches are then compared against a lowered frontier and already merged commits are queued again")
 }
